@@ -102,7 +102,24 @@ func TestVerifC02Shapes(t *testing.T) {
 		}
 	}
 	// rename pairs: names inside func-typed parameters, locals and results
-	for pi, pr := range progfam.RenamePairs {
+	pairs := append([]struct{ ID, A, B string }{}, progfam.RenamePairs...)
+	// refactorings of the statement on operands whose type is a type parameter constrained to
+	// integers (the generated family has a fixed, non-generic signature)
+	pairs = append(pairs,
+		struct{ ID, A, B string }{"generic-integer-operands-exchanged", `func Mix[T ~int | ~int64](a, b T) T {
+	c := a + b
+	d := a * b
+	return c ^ d
+}
+
+func useMix() int { return Mix(3, 4) }`, `func Mix[T ~int | ~int64](a, b T) T {
+	c := b + a
+	d := b * a
+	return d ^ c
+}
+
+func useMix() int { return Mix(3, 4) }`})
+	for pi, pr := range pairs {
 		for _, pol := range pols {
 			n++
 			if !vh.Mine(n) {
@@ -140,7 +157,7 @@ func TestVerifC02Shapes(t *testing.T) {
 					continue
 				}
 				if a[k][0] != b[k][0] {
-					r.Violate("pair/"+pr.ID+"/"+k+"/"+pol.n, fmt.Sprintf("%s: renaming names inside func types changes the fingerprint of %s under the %s policy.\n--- IR (A) ---\n%s\n--- IR (B) ---\n%s", pr.ID, k, pol.n, a[k][1], b[k][1]), map[string]interface{}{"pair": pr.ID})
+					r.Violate("pair/"+pr.ID+"/"+k+"/"+pol.n, fmt.Sprintf("%s: version B differs from version A only by a refactoring of the statement, yet the fingerprint of %s changes under the %s policy.\n--- IR (A) ---\n%s\n--- IR (B) ---\n%s", pr.ID, k, pol.n, a[k][1], b[k][1]), map[string]interface{}{"pair": pr.ID})
 				}
 			}
 		}
